@@ -104,7 +104,7 @@ def recorder_class():
         def setRequirements(self, requirements):
             super().setRequirements(requirements)
             self.index = {id(r): i for i, r in enumerate(self.requirements)}
-            self.cur, self.hook = None, None
+            self.cur, self.hook, self.clock = None, None, None
 
         def sortedRequirements(self):
             reqs = super().sortedRequirements()
@@ -118,6 +118,8 @@ def recorder_class():
 
         def checkRequirements(self, sample):
             self.cur = {"order": None, "evals": [], "sample": sample}
+            if self.clock is not None:
+                self.clock.calls = 0  # perf_counter pairs restart with every candidate (an exception may have split one)
             res = super().checkRequirements(sample)
             if self.hook:
                 try:
@@ -133,7 +135,7 @@ def recorder_class():
 def gen_script(t):
     base = [t.choice([1e-4, 1e-3, 1e-5, 1e-2, 0.0], f"clk.base{i}") for i in range(8)]
     stalled = t.chance(1, 8, "clk.stalled")
-    if t.chance(1, 4, "clk.blanket-dear"):  # the optional blanket check (requirement 0) is slow throughout: it tends to sort last
+    if t.chance(1, 3, "clk.blanket-dear"):  # the optional blanket check (requirement 0) is slow throughout: it tends to sort last
         base[0] = 1.0
     events = []
     for k in range(t.weighted([2, 3, 3, 2], "clk.nev")):
@@ -235,6 +237,9 @@ class History:
             if dropped:
                 self.report("mandatory-requirement-dropped", order=order, requirement_kinds=self.kinds, active=active,
                             dropped=[f"{i}:{self.kinds[i]}" for i in dropped])
+        info = dict(order=order, evaluated=evals, requirement_kinds=self.kinds, active=active)
+        if not accepted and evals and not evals[-1][1]:
+            self.contradict_rejection(sample, evals[-1][0], res, info)
         if self.ncand > self.full_cap and not accepted:
             return
         # full re-evaluation (statistics untouched: no updateMetrics, no clock; RNG state restored)
@@ -252,8 +257,7 @@ class History:
         self.bump("fulleval:candidates")
         mand_fail = [i for i in range(self.nreq) if active[i] and not reqs[i].optional and verdict[i] == 0]
         opt_fail = [i for i in range(self.nreq) if active[i] and reqs[i].optional and verdict[i] == 0]
-        info = dict(order=order, evaluated=evals, requirement_kinds=self.kinds, active=active,
-                    all_verdicts=[verdict.get(i) for i in range(self.nreq)])
+        info["all_verdicts"] = [verdict.get(i) for i in range(self.nreq)]
         if accepted and mand_fail:
             self.report("accepted-despite-failing-requirement", failing=[f"{i}:{self.kinds[i]}" for i in mand_fail], **info)
         if not accepted and not mand_fail and not opt_fail and not isinstance(res, RejectionException):
@@ -261,8 +265,6 @@ class History:
                         rejection=str(res), **info)
         if opt_fail and not mand_fail:
             self.bump("probe:optional-falsified-while-all-mandatory-hold")
-        if not accepted and evals and not evals[-1][1]:
-            self.contradict_rejection(sample, evals[-1][0], res, info)
 
     def contradict_rejection(self, sample, i, res, info):
         """The rejecting requirement's verdict against an oracle *proof* that the requirement holds."""
@@ -400,7 +402,7 @@ def run(tape):
         H = History(prog, scenario, rec, script, np.random.default_rng(seed))
         H.dig = dig
         H.stats = stats
-        rec.hook = H.on_candidate
+        rec.hook, rec.clock = H.on_candidate, clock
         clock.cost_fn = lambda n: cost_of(script, H.current_req(), H.nreq, H.call, H.fired)
         nonbox = sum(o["shape"] != "box" for o in prog["objs"])  # weight: rough cost of one candidate (deterministic)
         weight = 1 + H.kinds.count("VisibilityRequirement") * (3 + 3 * nonbox) + 3 * sum(o["shape"] == "mesh" for o in prog["objs"]) \
